@@ -12,8 +12,8 @@ VARIABLE l
 tvars == <<present, l>>
 Ev == Trace[l]
 
-Expect(class, got, want) == \/ got = want
-                            \/ PrintT(<<"MISMATCH", class, l, got, want>>)
+Expect(class, got, want) == IF got = want THEN TRUE
+                            ELSE PrintT(<<"MISMATCH", class, l, got, want>>)
 
 B2N(b) == IF b THEN 1 ELSE 0
 Consume == l <= Len(Trace) /\ l' = l + 1
